@@ -25,7 +25,14 @@
   one by one — each read is a yield point and may find the node gone —, then pops the removed
   members calling `on_leave` and calls `on_join` for the members read), callbacks that may raise.
 
-  Names are natural numbers; `n < lim` is the member filter.  Import-free.
+  Names are natural numbers; `n < lim` is the member filter.  What a znode contains is
+  `Cfg.keyOf`: the Member it carries up to `Member.__eq__` (endpoints, status, shard — not the
+  znode name); different names may carry equal Members (a server that re-registered).  The
+  ServerSet itself never compares Members, so the key only enters the observations (which Member
+  each callback was handed) and the specification's view of a consumer that goes by Member
+  equality.  Within one update the leaves are delivered before the joins (`finishJob`) — which
+  is what keeps such a consumer right when one update removes a znode and adds another with an
+  equal Member.  Import-free.
 -/
 import ScalesModel.Core.Val
 namespace Scales.ServerSet
@@ -69,9 +76,16 @@ structure Cfg where
   lim : Nat                -- member filter: names below `lim` are members
   raiseJoin : List Nat     -- names for which the consumer's on_join raises
   raiseLeave : List Nat    -- names for which the consumer's on_leave raises
+  keys : List Nat := []    -- content of the znodes: name `n` carries the Member `keys[n]` (name `n`
+                           -- itself beyond the list); two names with the same key carry *equal*
+                           -- Members (same endpoints / status / shard — `Member.__eq__` ignores
+                           -- the znode name).  The ServerSet never looks at it.
   deriving Repr, DecidableEq
 
 def Cfg.memberOk (cfg : Cfg) (n : Nat) : Bool := decide (n < cfg.lim)
+
+/-- the Member (up to `Member.__eq__`) that znode `n` carries -/
+def Cfg.keyOf (cfg : Cfg) (n : Nat) : Nat := cfg.keys.getD n n
 
 /-- a fired watch event waiting to be delivered -/
 inductive Ev where
@@ -296,6 +310,9 @@ def altOk : List Nat → List Note → Bool
   | _, [] => true
   | view, e :: es =>
     (if e.1 then !view.contains e.2 else view.contains e.2) && altOk (applyNote view e) es
+
+/-- a notification as a consumer that identifies members by `Member.__eq__` sees it -/
+def keyNote (k : Nat → Nat) (e : Note) : Note := (e.1, k e.2)
 
 /-- same elements -/
 def sameSet (a b : List Nat) : Bool := a.all (fun x => b.contains x) && b.all (fun x => a.contains x)
